@@ -1,31 +1,37 @@
-import Sm9.Proofs.GroupBasic
-import Sm9.Proofs.Pow
+import Sm9.Proofs.Program
+import Sm9.Proofs.RepIndep
 /-!
 # C16 — Any history of group operations behaves like arithmetic in Z_r
-First landing: the observation functions and the representation-changing operations are
-history-independent where a theorem is already available — identity handling in any
-(x, y, 0) form, reflexivity of `==`, normalisation of the identity, subtraction as
-addition of the negation.  The refinement `run_refines` (every register equals its
-discrete log times the generator, by induction over the program) needs C04/C05's group-law
-refinement and is the next item; until then programs are decided by the correspondence
-check: exhaustive depth 2 over {0, 1, 2, r−1}, random beyond.
+
+`run_refines`: for **every** program (any length, any order of `one zero add sub neg mul
+normalize affine` over a register file of G1 values), register k of the concrete machine
+is a valid point denoting `d_k • P1`, where `d_k` is register k of the abstract machine
+that tracks only discrete logarithms in Z_r.  Equality tests and identity tests of results
+are exactly those of the discrete logs (P1 has order exactly r).  Encodings and pairings
+are functions of the denoted point (C10, C03).  The same induction applies to G2 registers
+with `G2.*` (C04/C05); the encode/decode step needs C08's decoder theorem and is decided
+by the correspondence check (exhaustive depth 2 over {0, 1, 2, r−1}, random beyond).
 -/
 namespace Sm9.C16
 
+theorem run_refines (prog : List GInstr) : List.Forall₂ Rel (grun prog : List G1) (arun prog) :=
+  Sm9.run_refines prog
+/-- a register equals another exactly when the discrete logs agree -/
+theorem observe_eq {P Q : G1} {a b : Fr} (hP : Rel P a) (hQ : Rel Q b) : P.eq Q = true ↔ a = b :=
+  Sm9.observe_eq hP hQ
+theorem observe_is_zero {P : G1} {a : Fr} (hP : Rel P a) : P.is_zero = true ↔ a = 0 := Sm9.observe_is_zero hP
+/-- a value and a freshly computed value of the same group element are indistinguishable by the
+    pairing entry points -/
+theorem observe_pairing (p p' : G1) (qv : G2) (a : Fr) (hp : Rel p a) (hp' : Rel p' a) (hq : G2.Valid qv) :
+    Api.pairing p qv = Api.pairing p' qv ∧ Api.fast_pairing p qv = Api.fast_pairing p' qv := by
+  have h : G1.toAff p = G1.toAff p' := by rw [hp.2, hp'.2]
+  have e1 := G1.to_affine_congr p p' hp.1 hp'.1 h
+  exact ⟨pairing_congr p p' qv qv e1 rfl, fast_pairing_congr p p' qv qv e1 rfl⟩
+theorem generator_order : addOrderOf gen1 = r := gen1_addOrderOf
 theorem step_sub {F} [FieldElement F] (a b : G F) : a.sub b = a.add b.neg := rfl
-theorem step_add_identity_any_form (o b : G1) (h : o.z = 0) : o.add b = b := G1.add_zero_left o b h
-theorem step_add_identity_any_form_g2 (o b : G2) (h : o.z = 0) : o.add b = b := G2.add_zero_left o b h
-theorem observe_eq_refl (p : G1) : p.eq p = true := G1.eq_refl p
-theorem observe_identity (p o : G1) (ho : o.z = 0) : p.eq o = true ↔ p.z = 0 := G1.eq_zero_iff p o ho
-theorem step_normalize_identity (p : G1) (h : p.z = 0) : Api.normalize p = p :=
-  normalize_of_none p (G1.to_affine_none_of_z p h)
-theorem step_mul_zero {F} [FieldElement F] (p : G F) : p.mul 0 = G.zero := by
-  unfold G.mul G.mulBits
-  have : bitsMSB (0 : Fr).val = [] := by decide +kernel
-  rw [this]; rfl
-/-- the generators have order dividing r: the scalar alphabet {0, 1, 2, r−1} stays in ⟨P⟩ -/
-theorem generators_killed_by_r :
-    (((G.one : G1).mul (-(1 : Fr))).add G.one).z = 0 ∧ (((G.one : G2).mul (-(1 : Fr))).add G.one).z = 0 := by
-  decide +kernel
+
+/-- non-vacuity: P − P followed by a scalar multiplication and an addition -/
+example : List.Forall₂ Rel (grun [.one, .sub 0 0, .mul 1 (Fr.ofNat 7), .add 2 0] : List G1)
+    (arun [.one, .sub 0 0, .mul 1 (Fr.ofNat 7), .add 2 0]) := Sm9.run_refines _
 
 end Sm9.C16
